@@ -161,6 +161,22 @@ func TestVerifC09Dial(t *testing.T) {
 		useHooks := rapid.Bool().Draw(rt, "force_order")
 		firstIdx := rapid.IntRange(0, nreach-1).Draw(rt, "first")
 		first := net.JoinHostPort(perm[firstIdx], fmt.Sprint(srv.port))
+		if rapid.IntRange(0, 5).Draw(rt, "relay_first") == 0 {
+			// every direct attempt is slow (held by the hook for up to 3 s), only a relay-prefixed
+			// candidate would be quick: the direct phase must still end with exactly one connection
+			first = "turn:" + first
+			useHooks = true
+			found := false
+			for _, c := range cands {
+				if c == first {
+					found = true
+				}
+			}
+			if !found {
+				cands = append(cands, first)
+			}
+			rec.Class("direct-slow-relay-quick")
+		}
 
 		udp, err := net.ListenUDP("udp", &net.UDPAddr{Port: 0})
 		if err != nil {
